@@ -364,6 +364,14 @@ def check_optimal_and_inline_pa(run, A):
     arg_mu = reps[0]['arg_mu'] if reps else None
     st = [e for e in g.events if e.kind == 'store' and arg_mu is not None and strip_views(e.term.args[2]) is arg_mu]
     run.check(bool(st), 'R-SEL', 'optimal assignment: the best permutation is what is stored', fn.loc(), '', 'the stored column is not the arg-max permutation', construct=f'R-SEL::{q}::store-best')
+    if st:
+        # ... and nothing else is: every store into that result array takes the arg-max of the exhaustive search (a shortcut that
+        # writes e.g. the row-wise arg-max bypasses the search and need not be a permutation)
+        root = _chain_root(st[0].term.args[0])
+        others = [e for e in g.events if e.kind == 'store' and _chain_root(e.term.args[0]) is root and strip_views(e.term.args[2]) is not arg_mu]
+        run.check(not others, 'R-SEL', 'optimal assignment: every stored column comes from the exhaustive search', fn.loc(others[0].node) if others else fn.loc(), '',
+                  f'`{norm_stmt(others[0].node)[:90] if others else ""}` writes a column of the result that is not the arg-max of the search over all permutations',
+                  construct=f'R-SEL::{q}::only-search-results')
     # objective: sum_k score[k, perm[k]]
     oko = False
     if reps:
